@@ -99,3 +99,43 @@ MUTANTS = [
     m("c13-inplace-returns-copy", ["C13"], R, "            self._pmin = np.add(self.pmin, vector)\n            self._pmax = np.add(self.pmax, vector)\n            return self\n",
       "            self._pmin = np.add(self.pmin, vector)\n            self._pmax = np.add(self.pmax, vector)\n            return self.__class__(p1=self.pmin, p2=self.pmax)\n"),
 ]
+
+MUTANTS += [
+    # ------------------------------------------------------------------ C01
+    m("c01-index2point-half", ["C01"], M, "point = self.region.pmin + np.add(index, 0.5) * self.cell", "point = self.region.pmin + np.add(index, 1) * self.cell"),
+    m("c01-index2point-range", ["C01"], M, "np.logical_or(np.less(index, 0), np.greater_equal(index, self.n)).any()", "np.logical_or(np.less(index, 0), np.greater(index, self.n)).any()"),
+    m("c01-point2index-ceil", ["C01"], M, "index = np.floor((point - self.region.pmin) / self.cell).astype(int)", "index = np.ceil((point - self.region.pmin) / self.cell).astype(int)"),
+    m("c01-point2index-clip", ["C01"], M, "index = np.clip(index, 0, self.n - 1)", "index = np.clip(index, 0, self.n)"),
+    m("c01-point2index-no-guard", ["C01"], M, "        if point not in self.region:\n", "        if False:\n"),
+    m("c01-cells-offset", ["C01"], M, "np.linspace(pmin + cell / 2, pmax - cell / 2, n)", "np.linspace(pmin + cell / 2, pmax - cell, n)"),
+    m("c01-cells-zip-order", ["C01"], M, "self.region.pmin, self.region.pmax, self.cell, self.n\n", "self.region.pmax, self.region.pmin, self.cell, self.n\n"),
+    m("c01-vertices-count", ["C01"], M, "np.linspace(pmin, pmax, n + 1)", "np.linspace(pmin, pmax, n)"),
+    m("c01-indices-order", ["C01"], M, "for index in itertools.product(*map(range, reversed(self.n))):\n            yield tuple(reversed(index))",
+      "for index in itertools.product(*map(range, self.n)):\n            yield tuple(index)"),
+    m("c01-coordinate-axis", ["C01"], M, "self.n[i] if i == j else 1 for j in range(self.region.ndim)", "self.n[j] if i == j else 1 for j in reversed(range(self.region.ndim))"),
+    m("c01-contains-upper", ["C01"], R, "np.greater_equal(self.pmax, other)\n", "np.greater_equal(self.pmin, other)\n"),
+    m("c01-contains-atol", ["C01"], R, "atol = np.min(self.edges) * self.tolerance_factor\n            rtol = self.tolerance_factor\n            return np.all(", "atol = np.max(self.edges) * self.tolerance_factor\n            rtol = self.tolerance_factor\n            return np.all("),
+    m("c01-cell-divisibility", ["C01", "C13"], M, "            rem = np.remainder(self.region.edges, cell)\n            if np.logical_and(\n", "            rem = np.remainder(self.region.edges, cell)\n            if False and np.logical_and(\n"),
+    m("c01-n-from-cell-floor", ["C01", "C13"], M, "self._n = np.divide(self.region.edges, cell).round().astype(int)", "self._n = np.divide(self.region.edges, cell).astype(int)"),
+    m("c01-cell-def", ["C01"], M, "return np.divide(self.region.edges, self.n).astype(float)", "return np.divide(self.region.edges, self.n + 1).astype(float)"),
+]
+
+MUTANTS += [
+    # ------------------------------------------------------------------ C02
+    m("c02-dict-forward-order", ["C02"], F, "for subregion in reversed(mesh.subregions.keys()):", "for subregion in mesh.subregions.keys():"),
+    m("c02-dict-slab-store", ["C02"], F, "array[tuple(idx)] = np.asarray(subval(mesh.index2point(idx))).reshape(nvdim)", "array[idx] = np.asarray(subval(mesh.index2point(idx))).reshape(nvdim)"),
+    m("c02-dict-wrong-key", ["C02"], F, "                subval = val[subregion]\n", "                subval = val.get(subregion, val.get(\"default\"))\n"),
+    m("c02-dict-no-keyerror", ["C02"], F, "            if \"default\" not in val:\n", "            if False:\n"),
+    m("c02-callable-misaligned", ["C02"], F, "for index, point in zip(mesh.indices, mesh):", "for index, point in zip(mesh.indices, reversed(list(mesh))):"),
+    m("c02-call-wrong-lookup", ["C02"], F, "return self.array[self.mesh.point2index(point)]", "return self.array[self.mesh.point2index(point)[::-1]]"),
+    m("c02-getattr-column", ["C02"], F, "attr_array = self.array[..., self.vdims.index(attr), np.newaxis]", "attr_array = self.array[..., self.vdims.index(attr) - 1, np.newaxis]"),
+    m("c02-line-endpoint", ["C02"], M, "dl = np.subtract(p2, p1) / (n - 1)", "dl = np.subtract(p2, p1) / n"),
+    m("c02-line-no-guard", ["C02"], M, "if p1 not in self.region or p2 not in self.region:", "if p1 not in self.region and p2 not in self.region:"),
+    m("c02-line-r-from-origin", ["C02"], LN, "np.linalg.norm(points - points[0, :], axis=1)", "np.linalg.norm(points - points[-1, :], axis=1)"),
+    m("c02-component-count-unchecked", ["C02"], F, "            elif np.shape(val)[-1] != nvdim:\n", "            elif False:\n"),
+    m("c02-update-bypasses-setter", ["C02"], F, "        self.array = self._as_array(value, self.mesh, self.nvdim, dtype=self.dtype)\n", "        self._array = self._as_array(value, self.mesh, self.nvdim, dtype=self.dtype)\n"),
+    m("c02-field-source-no-check", ["C02"], F, "    if mesh.region not in val.mesh.region:\n", "    if False:\n"),
+    m("c02-field-source-not-nearest", ["C02"], F, 'method="nearest",\n        )\n        .data', 'method="pad",\n        )\n        .data'),
+    m("c02-init-valid-before-norm", ["C02"], F, "        self.norm = norm\n        self.valid = valid\n", "        self.valid = valid\n        self.norm = norm\n"),
+    m("c02-shortcut-any-nvdim", ["C02"], F, "if nvdim == 1 and np.array_equal(np.shape(val), mesh.n):", "if np.array_equal(np.shape(val), mesh.n):"),
+]
